@@ -1,28 +1,723 @@
-//! C05 — (stub; to be implemented, see DESIGN.md section 5 and HARNESS.md)
+//! C05 — caller's formatting flags pass through exactly for bare-placeholder formats, are inert in every other
+//! attribute-driven case, and a placeholder index that denotes no argument is a compile error.
+//!
+//! Case classes (label `class=..`):
+//! * `implicit`  — Display-like derive on a single-field struct/variant without attribute: every outer spec applied
+//!                 to the value must print what the same spec prints for the field under the derive's trait;
+//! * `subst`     — attribute whose literal is exactly one bare placeholder (optionally with one of the 9 trait
+//!                 letters) referring to a field by name, to its only positional argument (`{}` / `{0}`), or to its
+//!                 only named argument: every outer spec must print what it prints for that argument under the
+//!                 *placeholder's* trait;
+//! * `inert`     — every other attribute-driven literal (one modifier of each kind, surrounding text / escapes,
+//!                 two placeholders, none): every outer spec must print what `{}` prints, and that is what
+//!                 `format!` prints for the same literal and arguments;
+//! * `negative`  — placeholder index out of range, unused arguments: must be rejected by rustc.
+//! The reference side lives in the generated program (`__exp`/`__ref` methods binding the fields as documented).
+use super::lit::{Cnt, Spec};
+use super::p02::{arg_expr, gen_fields, Field, FMT_TRAITS, K};
 use super::progprop::*;
+use super::proggen::CaseResult;
+use serde_json::json;
+use std::fmt::Write as _;
 
-fn build(_d: &mut Dice) -> GenCase {
-    let mut c = GenCase::new("pub fn run(o: &mut Out) { o.check(\"stub\", true); }".to_string());
-    c.nontrivial = false;
+pub const SIG_INDEX: &str = "c05-index-ignored-single-arg";
+pub const SIG_PTR: &str = "c05-pointer-arg-one-deref-less";
+
+// ------------------------------------------------------------------------------------------------
+// outer spec grid (without the type letter)
+
+const F_FA: [&str; 10] = ["", "<", "^", ">", "*<", "*^", "*>", "0<", "0^", "0>"];
+const F_SIGN: [&str; 3] = ["", "+", "-"];
+const F_ALT: [&str; 2] = ["", "#"];
+const F_ZERO: [&str; 2] = ["", "0"];
+const F_WIDTH: [&str; 4] = ["", "1", "8", "12"];
+const F_PREC: [&str; 3] = ["", ".0", ".3"];
+
+/// greedy all-pairs covering array over factors of the given sizes, extending `rows`
+fn all_pairs(sizes: &[usize], rows: &mut Vec<Vec<usize>>) {
+    let n = sizes.len();
+    let mut uncovered: std::collections::BTreeSet<(usize, usize, usize, usize)> = Default::default();
+    for i in 0..n {
+        for j in i + 1..n {
+            for a in 0..sizes[i] {
+                for b in 0..sizes[j] {
+                    uncovered.insert((i, a, j, b));
+                }
+            }
+        }
+    }
+    let pairs = |row: &[usize]| -> Vec<(usize, usize, usize, usize)> {
+        let mut v = vec![];
+        for i in 0..n {
+            for j in i + 1..n {
+                v.push((i, row[i], j, row[j]));
+            }
+        }
+        v
+    };
+    for r in rows.iter() {
+        for p in pairs(r) {
+            uncovered.remove(&p);
+        }
+    }
+    let mut all: Vec<Vec<usize>> = vec![];
+    let mut idx = vec![0usize; n];
+    'outer: loop {
+        all.push(idx.clone());
+        for k in (0..n).rev() {
+            idx[k] += 1;
+            if idx[k] < sizes[k] {
+                continue 'outer;
+            }
+            idx[k] = 0;
+        }
+        break;
+    }
+    while !uncovered.is_empty() {
+        let mut best = (0usize, 0usize);
+        for (k, row) in all.iter().enumerate() {
+            let gain = pairs(row).iter().filter(|p| uncovered.contains(p)).count();
+            if gain > best.0 {
+                best = (gain, k);
+            }
+        }
+        let row = all[best.1].clone();
+        for p in pairs(&row) {
+            uncovered.remove(&p);
+        }
+        rows.push(row);
+    }
+}
+
+pub fn spec_grid() -> Vec<String> {
+    let sizes = [F_FA.len(), F_SIGN.len(), F_ALT.len(), F_ZERO.len(), F_WIDTH.len(), F_PREC.len()];
+    let mut rows: Vec<Vec<usize>> = vec![vec![0; 6]];
+    // every single modifier alone
+    for (k, s) in sizes.iter().enumerate() {
+        for v in 1..*s {
+            let mut r = vec![0; 6];
+            r[k] = v;
+            rows.push(r);
+        }
+    }
+    // the documentation's examples: {:03} {:07} {:>8} {:+.3} {:#x}
+    rows.push(vec![0, 0, 0, 1, 2, 0]);
+    rows.push(vec![3, 0, 0, 0, 2, 0]);
+    rows.push(vec![0, 1, 0, 0, 0, 2]);
+    all_pairs(&sizes, &mut rows);
+    let mut x: u64 = 0xD1B54A32D192ED03;
+    for _ in 0..40 {
+        let mut row = vec![0usize; 6];
+        for k in 0..6 {
+            x = x.wrapping_mul(6364136223846793005).wrapping_add(1442695040888963407);
+            row[k] = ((x >> 33) as usize) % sizes[k];
+        }
+        rows.push(row);
+    }
+    let mut seen = std::collections::HashSet::new();
+    rows.iter()
+        .map(|r| [F_FA[r[0]], F_SIGN[r[1]], F_ALT[r[2]], F_ZERO[r[3]], F_WIDTH[r[4]], F_PREC[r[5]]].concat())
+        .filter(|s| seen.insert(s.clone()))
+        .collect()
+}
+
+/// (type letters, grid function, trait path)
+const GRIDS: [(&str, &str, &str); 11] = [
+    ("", "__g_display", "Display"),
+    ("?", "__g_debug", "Debug"),
+    ("x?", "__g_debug_lx", "Debug"),
+    ("X?", "__g_debug_ux", "Debug"),
+    ("b", "__g_binary", "Binary"),
+    ("o", "__g_octal", "Octal"),
+    ("x", "__g_lower_hex", "LowerHex"),
+    ("X", "__g_upper_hex", "UpperHex"),
+    ("e", "__g_lower_exp", "LowerExp"),
+    ("E", "__g_upper_exp", "UpperExp"),
+    ("p", "__g_pointer", "Pointer"),
+];
+
+fn grid_fn(ty: &str) -> &'static str {
+    GRIDS.iter().find(|g| g.0 == ty).map(|g| g.1).unwrap_or("__g_display")
+}
+
+pub fn prelude() -> String {
+    let specs = spec_grid();
+    let mut s = String::from(super::p02::PRELUDE);
+    s.push_str("pub struct __P<'a>(pub &'a dyn std::fmt::Pointer);\nimpl std::fmt::Pointer for __P<'_> { fn fmt(&self, f: &mut std::fmt::Formatter<'_>) -> std::fmt::Result { std::fmt::Pointer::fmt(self.0, f) } }\n");
+    let _ = writeln!(s, "pub const __SPECS: [&str; {}] = [{}];", specs.len(), specs.iter().map(|g| format!("{g:?}")).collect::<Vec<_>>().join(", "));
+    for (ty, name, tr) in GRIDS {
+        let _ = writeln!(s, "pub fn {name}(v: &dyn std::fmt::{tr}) -> Vec<String> {{\n    vec![");
+        for sp in &specs {
+            let lit = format!("{{:{sp}{ty}}}");
+            // Pointer: the object's own impl (`&T: Pointer` would print the address of the reference instead)
+            let _ = writeln!(s, "        format!({lit:?}, {}),", if ty == "p" { "__P(v)" } else { "v" });
+        }
+        s.push_str("    ]\n}\n");
+    }
+    s.push_str(
+        r#"
+pub struct __Acc { unknown: Vec<(String, String, String)>, known: Vec<(String, String, String)>, compared: u64, sensitive: u64 }
+impl __Acc {
+    pub fn new() -> __Acc { __Acc { unknown: Vec::new(), known: Vec::new(), compared: 0, sensitive: 0 } }
+    /// pass-through: `obs[k]` (outer spec k applied to the derived value) must equal `exp[k]` (the same spec applied
+    /// to the argument under the placeholder's trait); `model` = (signature, what a recorded defect predicts)
+    pub fn subst(&mut self, outer: &str, obs: &[String], exp: &[String], model: Option<(&str, &[String])>) {
+        for k in 0..obs.len() {
+            self.compared += 1;
+            if exp[k] != exp[0] { self.sensitive += 1; }
+            if obs[k] == exp[k] { continue; }
+            let what = format!("caller's `{{:{}{}}}` must apply to the argument", __SPECS[k], outer);
+            match model {
+                Some((sig, m)) if m[k] == obs[k] => { if self.known.is_empty() { self.known.push((format!("[{sig}] {what}"), exp[k].clone(), obs[k].clone())); } }
+                _ => { if self.unknown.len() < 6 { self.unknown.push((what, exp[k].clone(), obs[k].clone())); } }
+            }
+        }
+    }
+    /// inert: every outer spec prints what the flag-free spec prints; `sens[k]` = the spec applied to the first
+    /// argument directly (only to measure that the flag would have changed something)
+    pub fn inert(&mut self, outer: &str, obs: &[String], plain: &str, sens: &[String]) {
+        for k in 0..obs.len() {
+            self.compared += 1;
+            if sens[k] != sens[0] { self.sensitive += 1; }
+            if obs[k] == plain { continue; }
+            if self.unknown.len() < 6 {
+                self.unknown.push((format!("caller's `{{:{}{}}}` must leave the output of a non-substitutable format unchanged", __SPECS[k], outer), plain.to_string(), obs[k].clone()));
+            }
+        }
+    }
+    pub fn same(&mut self, what: &str, exp: &str, obs: &str) {
+        self.compared += 1;
+        if exp != obs && self.unknown.len() < 6 { self.unknown.push((what.to_string(), exp.to_string(), obs.to_string())); }
+    }
+    pub fn finish(self, o: &mut Out) {
+        for (w, e, ob) in &self.unknown { o.fail(w, e, ob); }
+        for (w, e, ob) in &self.known { o.fail(w, e, ob); }
+        o.put("compared", &self.compared.to_string());
+        o.put("sensitive", &self.sensitive.to_string());
+    }
+}
+"#,
+    );
+    s
+}
+
+// ------------------------------------------------------------------------------------------------
+// shapes
+
+struct Shape {
+    tr: &'static str,
+    attr: &'static str,
+    tr_ty: &'static str,
+    is_enum: bool,
+    named: bool,
+    fields: Vec<Field>,
+    values: Vec<String>,
+}
+
+impl Shape {
+    fn decl(&self) -> String {
+        if self.named {
+            format!("{{ {} }}", self.fields.iter().map(|f| format!("{}: {}", f.member, f.kind.ty())).collect::<Vec<_>>().join(", "))
+        } else {
+            format!("({})", self.fields.iter().map(|f| f.kind.ty().to_string()).collect::<Vec<_>>().join(", "))
+        }
+    }
+    fn ctor(&self) -> String {
+        if self.named {
+            format!("{{ {} }}", self.fields.iter().zip(&self.values).map(|(f, v)| format!("{}: {v}", f.member)).collect::<Vec<_>>().join(", "))
+        } else {
+            format!("({})", self.values.join(", "))
+        }
+    }
+    fn pat(&self) -> String {
+        let names = self.fields.iter().map(|f| f.name.clone()).collect::<Vec<_>>().join(", ");
+        if self.named {
+            format!("{{ {names} }}")
+        } else {
+            format!("({names})")
+        }
+    }
+    /// statements binding the fields the way the documentation says (`_0`/names are references to the fields)
+    fn bindings(&self) -> String {
+        if self.is_enum {
+            format!("        let T::V{} = self else {{ unreachable!() }};\n", self.pat())
+        } else {
+            self.fields.iter().map(|f| format!("        let {} = &self.{};\n", f.name, f.member)).collect()
+        }
+    }
+    fn render(&self, attr_line: Option<&str>, methods: &str, run_body: &str) -> String {
+        let tr = self.tr;
+        let attr = self.attr;
+        let decl = self.decl();
+        let ctor = self.ctor();
+        let al = attr_line.map(|a| format!("#[{attr}({a})]")).unwrap_or_default();
+        let imp = format!("impl T {{\n    pub fn tag(&self) -> u32 {{ 7 }}\n{methods}}}\n");
+        if self.is_enum {
+            format!(
+                "#[derive(derive_more::{tr})]\npub enum T {{\n    {al}\n    V{decl},\n    #[{attr}(\"other\")]\n    Other,\n}}\n{imp}pub fn run(o: &mut Out) {{\n    let v = T::V{ctor};\n{run_body}}}\n"
+            )
+        } else {
+            let semi = if self.named { "" } else { ";" };
+            format!("#[derive(derive_more::{tr})]\n{al}\npub struct T{decl}{semi}\n{imp}pub fn run(o: &mut Out) {{\n    let v = T{ctor};\n{run_body}}}\n")
+        }
+    }
+    /// outer type letters under which the derived value can be formatted
+    fn outers(&self) -> Vec<&'static str> {
+        if self.tr == "Debug" {
+            vec!["?", "x?", "X?"]
+        } else {
+            vec![self.tr_ty]
+        }
+    }
+}
+
+fn gen_shape(d: &mut Dice, min: usize, max: usize, tr_idx: usize) -> Shape {
+    let (tr, attr, tr_ty) = FMT_TRAITS[tr_idx];
+    let is_enum = d.chance(30);
+    let (named, fields) = gen_fields(d, min, max);
+    let values = fields.iter().enumerate().map(|(i, f)| f.kind.value(i, d)).collect();
+    Shape { tr, attr, tr_ty, is_enum, named, fields, values }
+}
+
+fn lit_tok(s: &str) -> String {
+    proc_macro2::Literal::string(s).to_string()
+}
+
+/// how one placeholder refers to its value
+#[derive(Clone, Debug)]
+struct Refer {
+    /// text before the `:` inside the braces
+    pos: String,
+    /// attribute arguments (`expr` / `alias = expr`)
+    args: Vec<String>,
+    /// the expression the placeholder denotes, in terms of the bindings (for a field named directly: the binding)
+    value: String,
+    /// a field named directly in the literal (the field itself, not the reference)
+    inline: bool,
+    /// the argument is a bare field binding
+    bare_field: bool,
+    kind: K,
+    label: &'static str,
+}
+
+/// draws one of the argument forms of the statement for a single placeholder
+fn gen_refer(d: &mut Dice, sh: &Shape) -> Refer {
+    let f = sh.fields[d.pick(sh.fields.len())].clone();
+    match d.weighted(&[4, 4, 2, 2]) {
+        0 => Refer { pos: f.name.clone(), args: vec![], value: f.name.clone(), inline: true, bare_field: true, kind: f.kind, label: "arg=field_by_name" },
+        1 => {
+            let (expr, kind, bare) = arg_expr(&f, d);
+            let pos = if d.chance(50) { String::new() } else { "0".to_string() };
+            Refer { pos, args: vec![expr.clone()], value: expr, inline: false, bare_field: bare, kind, label: if bare { "arg=positional_field" } else { "arg=positional_expression" } }
+        }
+        2 => {
+            let (expr, kind, bare) = arg_expr(&f, d);
+            // the alias may shadow a field name
+            let alias = if sh.named && d.chance(25) { sh.fields[d.pick(sh.fields.len())].name.clone() } else { ["k", "v", "al"][d.pick(3)].to_string() };
+            Refer { pos: alias.clone(), args: vec![format!("{alias} = {expr}")], value: expr, inline: false, bare_field: bare, kind, label: "arg=named_matching" }
+        }
+        _ => {
+            let (expr, kind, bare) = arg_expr(&f, d);
+            let pos = if d.chance(50) { String::new() } else { "0".to_string() };
+            Refer { pos, args: vec![format!("k = {expr}")], value: expr, inline: false, bare_field: bare, kind, label: "arg=named_by_position" }
+        }
+    }
+}
+
+fn bare_tys(k: K) -> Vec<&'static str> {
+    k.tys().iter().copied().filter(|t| *t != "x?" && *t != "X?").collect()
+}
+
+/// expression of type `&dyn Trait` for the denoted value inside `__exp`/`__ref`
+fn value_ref(r: &Refer) -> String {
+    if r.inline {
+        // the field itself
+        r.value.clone()
+    } else {
+        format!("&({})", r.value)
+    }
+}
+
+fn attr_args(lit: &str, args: &[String]) -> String {
+    if args.is_empty() {
+        lit_tok(lit)
+    } else {
+        format!("{}, {}", lit_tok(lit), args.join(", "))
+    }
+}
+
+// ------------------------------------------------------------------------------------------------
+// classes
+
+fn build_implicit(d: &mut Dice) -> GenCase {
+    // the eight Display-like traits (attribute-less Debug is C06)
+    let tr_idx = [0usize, 2, 3, 4, 5, 6, 7, 8][d.pick(8)];
+    let (tr, _, tr_ty) = FMT_TRAITS[tr_idx];
+    let kinds: &[K] = match tr {
+        "Display" => &[K::Int, K::Str, K::Float, K::Ptr, K::Size],
+        "LowerExp" | "UpperExp" => &[K::Int, K::Float, K::Size],
+        "Pointer" => &[K::Ptr],
+        _ => &[K::Int, K::Size],
+    };
+    let kind = kinds[d.pick(kinds.len())];
+    let named = d.chance(50);
+    let (name, member) = if named {
+        let n = ["field", "a", "inner", "x"][d.pick(4)].to_string();
+        (n.clone(), n)
+    } else {
+        ("_0".to_string(), "0".to_string())
+    };
+    let field = Field { name, member, kind };
+    let vi = d.pick(8);
+    let value = kind.value(vi, d);
+    let sh = Shape { tr, attr: FMT_TRAITS[tr_idx].1, tr_ty, is_enum: d.chance(40), named, fields: vec![field.clone()], values: vec![value] };
+    let g = grid_fn(tr_ty);
+    let methods = format!("    pub fn __exp(&self) -> Vec<String> {{\n{}        {g}({})\n    }}\n", sh.bindings(), field.name);
+    let run = format!("    let mut acc = __Acc::new();\n    acc.subst({tr_ty:?}, &{g}(&v), &v.__exp(), None);\n    acc.finish(o);\n");
+    let mut c = GenCase::new(sh.render(None, &methods, &run));
+    c.labels = vec!["class=implicit".into(), format!("trait={tr}"), format!("kind={}", if sh.is_enum { "enum" } else { "struct" }), format!("value={kind:?}")];
+    c.nontrivial = true;
+    c.meta = json!({"class": "implicit"});
     c
 }
 
+fn build_subst(d: &mut Dice) -> GenCase {
+    let tr_idx = d.pick(9);
+    let sh = gen_shape(d, 1, 3, tr_idx);
+    let r = gen_refer(d, &sh);
+    let tys = bare_tys(r.kind);
+    let ty = tys[d.pick(tys.len())];
+    // std::fmt allows whitespace before the closing brace; it is no modifier
+    let ws = if d.chance(8) { " " } else { "" };
+    let lit = if ty.is_empty() { format!("{{{}{ws}}}", r.pos) } else { format!("{{{}:{ty}{ws}}}", r.pos) };
+    let vr = value_ref(&r);
+    // recorded defect model: `{:p}` with a bare field binding as argument is delegated as `Pointer::fmt(_0, f)`,
+    // which prints the pointer stored in the field (one dereference less than `format!("{:p}", _0)`)
+    let ptr_model = ty == "p" && !r.inline && r.bare_field && r.kind == K::Ptr;
+    let mut methods = String::new();
+    let mut run = String::from("    let mut acc = __Acc::new();\n");
+    for (i, outer) in sh.outers().into_iter().enumerate() {
+        // the placeholder's trait decides; the debug-hex flag of the caller only exists for Debug
+        let g_exp = if ty == "?" && outer.ends_with('?') { grid_fn(outer) } else { grid_fn(ty) };
+        let _ = write!(methods, "    pub fn __exp{i}(&self) -> Vec<String> {{\n{}        {g_exp}({vr})\n    }}\n", sh.bindings());
+        if ptr_model {
+            let _ = write!(methods, "    pub fn __model{i}(&self) -> Vec<String> {{\n{}        {g_exp}(&(*{}))\n    }}\n", sh.bindings(), r.value);
+            let _ = writeln!(run, "    acc.subst({outer:?}, &{}(&v), &v.__exp{i}(), Some(({SIG_PTR:?}, &v.__model{i}())));", grid_fn(outer));
+        } else {
+            let _ = writeln!(run, "    acc.subst({outer:?}, &{}(&v), &v.__exp{i}(), None);", grid_fn(outer));
+        }
+    }
+    run.push_str("    acc.finish(o);\n");
+    let mut c = GenCase::new(sh.render(Some(&attr_args(&lit, &r.args)), &methods, &run));
+    c.labels = vec![
+        "class=subst".into(),
+        format!("trait={}", sh.tr),
+        format!("kind={}", if sh.is_enum { "enum" } else { "struct" }),
+        format!("placeholder_type={}", if ty.is_empty() { "display" } else { ty }),
+        r.label.into(),
+    ];
+    if !r.bare_field {
+        c.labels.push("expression_argument".into());
+    }
+    if ptr_model {
+        c.labels.push("pointer_with_bare_field_argument".into());
+    }
+    if !ws.is_empty() {
+        c.labels.push("placeholder_trailing_whitespace".into());
+    }
+    // `format_args!` ignores every flag by itself: pass-through is not observable there
+    c.nontrivial = !r.value.contains("format_args!");
+    c.meta = json!({"class": "subst", "literal": lit, "ptr_model": ptr_model});
+    c
+}
+
+/// one placeholder with exactly one modifier of the given kind
+fn one_modifier(d: &mut Dice, kind: K, which: usize) -> (Spec, &'static str) {
+    let tys = bare_tys(kind);
+    let mut s = Spec::bare(tys[d.pick(tys.len())]);
+    let label = match which {
+        0 => {
+            s.align = Some(*d.choose(&['<', '^', '>']));
+            "align"
+        }
+        1 => {
+            s.fill = Some(*d.choose(&['*', '0', ' ', 'é']));
+            s.align = Some(*d.choose(&['<', '^', '>']));
+            "fill"
+        }
+        2 => {
+            s.sign = Some(*d.choose(&['+', '-']));
+            "sign"
+        }
+        3 => {
+            s.alt = true;
+            "alternate"
+        }
+        4 => {
+            s.zero = true;
+            "zero"
+        }
+        5 => {
+            s.width = Cnt::Int(d.range(1, 9));
+            "width"
+        }
+        6 => {
+            s.prec = Cnt::Int(d.range(0, 5));
+            "precision"
+        }
+        _ => {
+            s.ty = if d.chance(50) { "x?".into() } else { "X?".into() };
+            "debug_hex"
+        }
+    };
+    (s, label)
+}
+
+fn build_inert(d: &mut Dice) -> GenCase {
+    let tr_idx = d.pick(9);
+    let sh = gen_shape(d, 1, 3, tr_idx);
+    let mut labels = vec!["class=inert".to_string(), format!("trait={}", sh.tr), format!("kind={}", if sh.is_enum { "enum" } else { "struct" })];
+    let mut lit = String::new();
+    let mut args: Vec<String> = vec![];
+    // (value expression, inline, kind, type letters) of the first placeholder: used to measure flag sensitivity
+    let mut first: Option<(Refer, String)> = None;
+    let mut inline_names: Vec<String> = vec![];
+    let form = d.weighted(&[40, 25, 25, 10]);
+    match form {
+        0 => {
+            // one placeholder, exactly one modifier
+            let r = gen_refer(d, &sh);
+            let which = d.pick(8);
+            let (spec, l) = one_modifier(d, r.kind, which);
+            labels.push(format!("modifier={l}"));
+            labels.push("one_modifier".into());
+            let _ = write!(lit, "{{{}:{}}}", r.pos, spec.render());
+            args = r.args.clone();
+            if r.inline {
+                inline_names.push(r.value.clone());
+            }
+            first = Some((r, spec.render()));
+        }
+        1 => {
+            // bare placeholder plus text / escape
+            let r = gen_refer(d, &sh);
+            let tys = bare_tys(r.kind);
+            let ty = tys[d.pick(tys.len())];
+            let ph = if ty.is_empty() { format!("{{{}}}", r.pos) } else { format!("{{{}:{ty}}}", r.pos) };
+            let text = ["x", " ", "{{", "}}", "é", "\n", "{{}}"][d.pick(7)];
+            lit = if d.chance(50) { format!("{text}{ph}") } else { format!("{ph}{text}") };
+            labels.push("surrounding_text".into());
+            if text.contains('{') || text.contains('}') {
+                labels.push("escape".into());
+            }
+            args = r.args.clone();
+            if r.inline {
+                inline_names.push(r.value.clone());
+            }
+            first = Some((r, ty.to_string()));
+        }
+        2 => {
+            // two placeholders
+            labels.push("two_placeholders".into());
+            match d.pick(4) {
+                0 => {
+                    // the same single argument twice
+                    let f = sh.fields[d.pick(sh.fields.len())].clone();
+                    let (expr, kind, bare) = arg_expr(&f, d);
+                    let tys = bare_tys(kind);
+                    let ty = tys[d.pick(tys.len())];
+                    let tail = if ty.is_empty() { String::new() } else { format!(":{ty}") };
+                    lit = format!("{{0{tail}}}{{0{tail}}}");
+                    args = vec![expr.clone()];
+                    first = Some((Refer { pos: "0".into(), args: vec![], value: expr, inline: false, bare_field: bare, kind, label: "" }, ty.to_string()));
+                }
+                1 => {
+                    // the same field twice by name
+                    let f = sh.fields[d.pick(sh.fields.len())].clone();
+                    let tys = bare_tys(f.kind);
+                    let ty = tys[d.pick(tys.len())];
+                    let tail = if ty.is_empty() { String::new() } else { format!(":{ty}") };
+                    lit = format!("{{{0}{tail}}}{{{0}{tail}}}", f.name);
+                    inline_names.push(f.name.clone());
+                    first = Some((Refer { pos: f.name.clone(), args: vec![], value: f.name.clone(), inline: true, bare_field: true, kind: f.kind, label: "" }, ty.to_string()));
+                }
+                _ => {
+                    // two implicit positional arguments
+                    for j in 0..2 {
+                        let f = sh.fields[d.pick(sh.fields.len())].clone();
+                        let (expr, kind, bare) = arg_expr(&f, d);
+                        let tys = bare_tys(kind);
+                        let ty = tys[d.pick(tys.len())];
+                        let _ = write!(lit, "{}", if ty.is_empty() { "{}".to_string() } else { format!("{{:{ty}}}") });
+                        args.push(expr.clone());
+                        if j == 0 {
+                            first = Some((Refer { pos: String::new(), args: vec![], value: expr, inline: false, bare_field: bare, kind, label: "" }, ty.to_string()));
+                        }
+                    }
+                }
+            }
+        }
+        _ => {
+            labels.push("no_placeholder".into());
+            lit = ["text", "", "{{}}", "é→ "][d.pick(4)].to_string();
+        }
+    }
+    // reference: plain format! with the identical literal and arguments; fields named in the literal are the fields themselves
+    let mut ref_args = args.clone();
+    for n in &inline_names {
+        if !ref_args.iter().any(|a| a.starts_with(&format!("{n} = "))) {
+            ref_args.push(format!("{n} = *{n}"));
+        }
+    }
+    let ref_call = if ref_args.is_empty() { format!("format!({})", lit_tok(&lit)) } else { format!("format!({}, {})", lit_tok(&lit), ref_args.join(", ")) };
+    let mut methods = format!("    pub fn __ref(&self) -> String {{\n{}        {ref_call}\n    }}\n", sh.bindings());
+    // sensitivity probe: the outer spec applied directly to the first argument under its own (bare) trait
+    let sens_ty: String = first.as_ref().map(|(_, t)| bare_of(t)).unwrap_or_default();
+    match &first {
+        Some((r, _)) => {
+            let _ = write!(methods, "    pub fn __sens(&self) -> Vec<String> {{\n{}        {}({})\n    }}\n", sh.bindings(), grid_fn(&sens_ty), value_ref(r));
+        }
+        None => {
+            let _ = write!(methods, "    pub fn __sens(&self) -> Vec<String> {{ vec![String::new(); __SPECS.len()] }}\n");
+        }
+    }
+    let mut run = String::from("    let mut acc = __Acc::new();\n    let sens = v.__sens();\n");
+    let plain_ty = sh.outers()[0];
+    let _ = writeln!(run, "    let plain = format!(\"{{:{plain_ty}}}\", v);\n    acc.same(\"derived == format!(literal, args)\", &v.__ref(), &plain);");
+    for outer in sh.outers() {
+        let _ = writeln!(run, "    acc.inert({outer:?}, &{}(&v), &plain, &sens);", grid_fn(outer));
+    }
+    run.push_str("    acc.finish(o);\n");
+    let mut c = GenCase::new(sh.render(Some(&attr_args(&lit, &args)), &methods, &run));
+    c.nontrivial = first.as_ref().is_some_and(|(r, _)| !r.value.contains("format_args!"));
+    if let Some((r, _)) = &first {
+        if !r.bare_field {
+            labels.push("expression_argument".into());
+        }
+        if !r.label.is_empty() {
+            labels.push(r.label.to_string());
+        }
+    }
+    c.labels = labels;
+    c.meta = json!({"class": "inert", "literal": lit});
+    c
+}
+
+/// the bare type letter of a rendered spec (`x?` -> `?`; modifiers dropped)
+fn bare_of(spec_or_ty: &str) -> String {
+    for t in ["x?", "X?"] {
+        if spec_or_ty.ends_with(t) {
+            return "?".into();
+        }
+    }
+    for t in ["?", "o", "x", "X", "p", "b", "e", "E"] {
+        if spec_or_ty.ends_with(t) {
+            return t.into();
+        }
+    }
+    String::new()
+}
+
+fn build_negative(d: &mut Dice) -> GenCase {
+    let tr_idx = d.pick(9);
+    let sh = gen_shape(d, 1, 3, tr_idx);
+    let f = sh.fields[d.pick(sh.fields.len())].clone();
+    let (expr, kind, _) = arg_expr(&f, d);
+    let tys = bare_tys(kind);
+    let ty = tys[d.pick(tys.len())];
+    let tail = if ty.is_empty() { String::new() } else { format!(":{ty}") };
+    let arg1 = if d.chance(25) { format!("k = {expr}") } else { expr.clone() };
+    let (lit, args, label, single): (String, Vec<String>, &str, bool) = match d.weighted(&[40, 15, 12, 13, 10, 10]) {
+        0 => {
+            // index out of range with exactly one argument, bare placeholder
+            let idx = ["1", "2", "70000", "18446744073709551615"][d.weighted(&[5, 2, 2, 1])];
+            (format!("{{{idx}{tail}}}"), vec![arg1], "neg=index_out_of_range_one_argument", true)
+        }
+        1 => (format!("{{{}{tail}}}", ["0", "", "1"][d.pick(3)]), vec![], "neg=index_without_arguments", false),
+        2 => {
+            let f2 = sh.fields[d.pick(sh.fields.len())].clone();
+            let (e2, _, _) = arg_expr(&f2, d);
+            (format!("{{0}}{{1}}{{2{tail}}}"), vec![f.name.clone(), e2], "neg=index_out_of_range_two_arguments", false)
+        }
+        3 => (format!("{{1:>5}}"), vec![arg1], "neg=index_out_of_range_with_modifier", false),
+        4 => {
+            let f2 = sh.fields[d.pick(sh.fields.len())].clone();
+            (format!("{{{tail}}}"), vec![expr.clone(), f2.name.clone()], "neg=unused_positional_argument", false)
+        }
+        _ => (format!("{{{}}}", f.name), vec![format!("zz = {}", f.name)], "neg=unused_named_argument", false),
+    };
+    let single_model = single;
+    let mut c = GenCase::new(sh.render(Some(&attr_args(&lit, &args)), "", "    let _ = (o, v);\n"));
+    c.expect_compile = false;
+    c.runnable = false;
+    c.labels = vec!["class=negative".into(), label.into(), format!("trait={}", sh.tr), format!("kind={}", if sh.is_enum { "enum" } else { "struct" })];
+    c.nontrivial = true;
+    c.meta = json!({"class": "negative", "literal": lit, "single_arg_bare_out_of_range": single_model, "nargs": args.len()});
+    c
+}
+
+fn build(d: &mut Dice) -> GenCase {
+    match d.weighted(&[10, 36, 38, 16]) {
+        0 => build_implicit(d),
+        1 => build_subst(d),
+        2 => build_inert(d),
+        _ => build_negative(d),
+    }
+}
+
+fn classify(c: &GenCase, r: &CaseResult, f: &Finding) -> Option<String> {
+    if !c.expect_compile {
+        // defect model: with exactly one argument and a bare placeholder the index is never looked at, the
+        // attribute is turned into a delegation to that argument and therefore compiles
+        if r.compiled && c.meta["single_arg_bare_out_of_range"] == json!(true) && c.meta["nargs"] == json!(1) {
+            return Some(SIG_INDEX.to_string());
+        }
+        return None;
+    }
+    let rest = f.summary.strip_prefix("run-time oracle failed: [")?;
+    let (sig, _) = rest.split_once(']')?;
+    (sig == SIG_PTR && c.meta["ptr_model"] == json!(true)).then(|| SIG_PTR.to_string())
+}
+
 pub fn prop() -> DiceProp {
+    let ns = spec_grid().len();
     DiceProp {
         crate_name: "gen_c05",
-        prelude: String::new(),
+        prelude: prelude(),
         crate_attrs: String::new(),
         nightly: false,
         check_only: false,
-        ndice: 64,
-        quick: (10, 1),
-        thorough: (10, 1),
+        ndice: 96,
+        quick: (900, 1),
+        thorough: (4000, 8),
         build,
         fixed: no_fixed,
-        classify: no_classify,
-        rule: "stub".into(),
-        assumptions: vec![],
-        floors: vec![],
+        classify,
+        rule: format!(
+            "struct / enum variant with 1..3 fields (i32, f64, &str, &i32, usize; positional or named) deriving one of the 9 fmt traits; classes: implicit (8 Display-like traits, single field, no attribute), subst (literal = one bare placeholder in any of the 9 placeholder traits naming a field, its only positional argument as `{{}}`/`{{0}}`, its only named argument by name or by position; argument = field, expression, method call, format_args!), inert (one placeholder with exactly one of align / fill / sign / # / 0 / width / precision / x? / X?; bare placeholder plus text or escape; two placeholders; none), negative (index out of range with 0, 1, 2 arguments, unused positional / named argument); every runnable case is evaluated under {ns} outer specs (each single modifier, all-pairs over fill+align x sign x # x 0 x width x precision, 40 fixed random; for derive(Debug) under ?, x? and X?): subst/implicit must equal the same spec applied to the argument under the placeholder's trait, inert must equal the flag-free output which must equal format!(literal, args); non-trivial = the argument is not a format_args! (which ignores flags itself): the grid always contains specs that change its text (measured per case as `sensitive`); distinct by program text"
+        ),
+        assumptions: vec![
+            "format! of the installed stable toolchain applied to the argument directly is the reference".into(),
+            "names of outer bindings that are not fields (`{CONST}`) are not generated: the statement does not say which class they belong to".into(),
+        ],
+        floors: vec![
+            ("class=implicit".into(), 0.03),
+            ("class=subst".into(), 0.25),
+            ("class=inert".into(), 0.25),
+            ("class=negative".into(), 0.1),
+            ("arg=field_by_name".into(), 0.1),
+            ("arg=positional_field".into(), 0.03),
+            ("arg=positional_expression".into(), 0.08),
+            ("arg=named_matching".into(), 0.05),
+            ("arg=named_by_position".into(), 0.05),
+            ("one_modifier".into(), 0.08),
+            ("surrounding_text".into(), 0.05),
+            ("two_placeholders".into(), 0.05),
+            ("neg=index_out_of_range_one_argument".into(), 0.03),
+            ("neg=index_without_arguments".into(), 0.01),
+            ("trait=Debug".into(), 0.05),
+            ("kind=enum".into(), 0.15),
+        ],
         shards: 0,
     }
 }
